@@ -394,5 +394,362 @@ func init() {
 		fmt.Fprintf(&e.out, "def labelPriority : List Nat := %s\n", c13Bytes(c13IndexKey(e, vd, "", "validateImmutablePriority")))
 		fmt.Fprintf(&e.out, "def annotationExtendedResourceSpec : List Nat := %s\n", c13Bytes(c13IndexKey(e, d, "", "GetExtendedResourceSpec")))
 		fmt.Fprintf(&e.out, "def annotationSkipUpdateResource : List Nat := %s\n", c13Bytes(c13IndexKey(e, d, "", "ShouldSkipUpdateResource")))
+		c13EntryFacts(e)
 	}
+}
+
+// ---- the entry points (Model/C13Handle.lean): dispatch, `mutated` bookkeeping, guards in front of the validators ----
+
+func c13StrList(xs []string) string {
+	q := make([]string, len(xs))
+	for i, x := range xs {
+		q[i] = leanStr(x)
+	}
+	return "[" + strings.Join(q, ", ") + "]"
+}
+
+// c13Mentions: the selector names, called function names and string literals an expression mentions (sorted, distinct;
+// local variable names are left out, so renaming a local is harmless).
+func c13Mentions(xs ...ast.Node) []string {
+	set := map[string]bool{}
+	for _, x := range xs {
+		if x == nil {
+			continue
+		}
+		ast.Inspect(x, func(n ast.Node) bool {
+			switch v := n.(type) {
+			case *ast.SelectorExpr:
+				set[v.Sel.Name] = true
+			case *ast.CallExpr:
+				if id, ok := v.Fun.(*ast.Ident); ok {
+					set[id.Name] = true
+				}
+			case *ast.BasicLit:
+				if v.Kind == token.STRING {
+					set[v.Value] = true
+				}
+			}
+			return true
+		})
+	}
+	var out []string
+	for k := range set {
+		out = append(out, k)
+	}
+	sort.Strings(out)
+	return out
+}
+
+func c13RecvName(fd *ast.FuncDecl) string {
+	if fd.Recv != nil && len(fd.Recv.List) == 1 && len(fd.Recv.List[0].Names) == 1 {
+		return fd.Recv.List[0].Names[0].Name
+	}
+	return ""
+}
+
+// c13RecvCalls: the names of the calls recv.<name>(...) with at least minArgs arguments inside n, in source order.
+func c13RecvCalls(n ast.Node, recv string, minArgs int) []string {
+	var out []string
+	if n == nil || recv == "" {
+		return out
+	}
+	ast.Inspect(n, func(x ast.Node) bool {
+		if c, ok := x.(*ast.CallExpr); ok && len(c.Args) >= minArgs {
+			if sel, ok := c.Fun.(*ast.SelectorExpr); ok {
+				if id, ok := sel.X.(*ast.Ident); ok && id.Name == recv {
+					out = append(out, sel.Sel.Name)
+				}
+			}
+		}
+		return true
+	})
+	return out
+}
+
+type c13Ret struct {
+	admit, reject bool
+	mentions      []string
+}
+
+// c13Returns: the return statements of stmts with the conditions of the enclosing ifs.  admit = naked return or first
+// result `true`; reject = first result `false`.
+func c13Returns(stmts []ast.Stmt, conds []ast.Node, out *[]c13Ret) {
+	for _, st := range stmts {
+		switch s := st.(type) {
+		case *ast.ReturnStmt:
+			r := c13Ret{mentions: c13Mentions(conds...)}
+			if len(s.Results) == 0 {
+				r.admit = true
+			} else if id, ok := s.Results[0].(*ast.Ident); ok && id.Name == "true" {
+				r.admit = true
+			} else if ok && id.Name == "false" {
+				r.reject = true
+			}
+			*out = append(*out, r)
+		case *ast.IfStmt:
+			inner := append(append([]ast.Node{}, conds...), s.Cond)
+			if s.Init != nil {
+				inner = append(inner, s.Init)
+			}
+			c13Returns(s.Body.List, inner, out)
+			switch el := s.Else.(type) {
+			case *ast.BlockStmt:
+				c13Returns(el.List, inner, out)
+			case *ast.IfStmt:
+				c13Returns([]ast.Stmt{el}, inner, out)
+			}
+		case *ast.BlockStmt:
+			c13Returns(s.List, conds, out)
+		default:
+			ast.Inspect(st, func(n ast.Node) bool {
+				if r, ok := n.(*ast.ReturnStmt); ok {
+					c13Returns([]ast.Stmt{r}, append(append([]ast.Node{}, conds...), st), out)
+				}
+				return true
+			})
+		}
+	}
+}
+
+func c13IgnoreFacts(e *ext, dir string) []string {
+	fd := e.funcDecl(dir, "", "shouldIgnoreIfNotPod")
+	if fd == nil || fd.Body == nil || len(fd.Body.List) == 0 {
+		e.fail("shouldIgnoreIfNotPod not found in %s", dir)
+		return nil
+	}
+	ifs, ok := fd.Body.List[0].(*ast.IfStmt)
+	if !ok {
+		e.fail("shouldIgnoreIfNotPod in %s does not start with an if", dir)
+		return nil
+	}
+	out := c13Mentions(ifs.Cond)
+	ast.Inspect(ifs.Cond, func(n ast.Node) bool {
+		if be, ok := n.(*ast.BinaryExpr); ok {
+			out = append(out, be.Op.String())
+		}
+		return true
+	})
+	return out
+}
+
+func c13EntryFacts(e *ext) {
+	md, vd := "pkg/webhook/pod/mutating", "pkg/webhook/pod/validating"
+	fmt.Fprintf(&e.out, "-- entry points\n")
+	fmt.Fprintf(&e.out, "def ignoreMutating : List String := %s\n", c13StrList(c13IgnoreFacts(e, md)))
+	fmt.Fprintf(&e.out, "def ignoreValidating : List String := %s\n", c13StrList(c13IgnoreFacts(e, vd)))
+
+	// PodMutatingHandler.Handle: the switch on req.Operation, the "no patch unless mutated" guard, the patch constructor
+	var dispatch []string
+	noPatchGuard, patchFrom, firstGuard := false, "", ""
+	if fd := e.funcDecl(md, "PodMutatingHandler", "Handle"); fd == nil || fd.Body == nil {
+		e.fail("PodMutatingHandler.Handle not found")
+	} else {
+		recv := c13RecvName(fd)
+		flagVar := ""
+		for i, st := range fd.Body.List {
+			if i == 0 {
+				if ifs, ok := st.(*ast.IfStmt); ok {
+					firstGuard = strings.Join(c13Mentions(ifs.Cond), ",")
+				}
+			}
+			if sw, ok := st.(*ast.SwitchStmt); ok && strings.Join(c13Mentions(sw.Tag), ",") == "Operation" {
+				for _, cc := range sw.Body.List {
+					cl := cc.(*ast.CaseClause)
+					label := "default"
+					if len(cl.List) > 0 {
+						label = strings.Join(c13Mentions(cl.List[0]), ",")
+					}
+					target := strings.Join(c13RecvCalls(cl, recv, 3), ",")
+					if target == "" {
+						target = strings.Join(c13Mentions(cl), ",")
+					}
+					for _, b := range cl.Body {
+						if as, ok := b.(*ast.AssignStmt); ok && len(as.Lhs) > 0 {
+							if id, ok := as.Lhs[0].(*ast.Ident); ok {
+								flagVar = id.Name
+							}
+						}
+					}
+					dispatch = append(dispatch, fmt.Sprintf("(%s, %s)", leanStr(label), leanStr(target)))
+				}
+			}
+			if ifs, ok := st.(*ast.IfStmt); ok && flagVar != "" {
+				if un, ok := ifs.Cond.(*ast.UnaryExpr); ok && un.Op == token.NOT {
+					if id, ok := un.X.(*ast.Ident); ok && id.Name == flagVar && len(ifs.Body.List) == 1 {
+						if r, ok := ifs.Body.List[0].(*ast.ReturnStmt); ok && len(r.Results) == 1 && strings.Join(c13Mentions(r.Results[0]), ",") == "\"\",Allowed" {
+							noPatchGuard = true
+						}
+					}
+				}
+			}
+			if r, ok := st.(*ast.ReturnStmt); ok && i == len(fd.Body.List)-1 && len(r.Results) == 1 {
+				if c, ok := r.Results[0].(*ast.CallExpr); ok {
+					patchFrom = c13Name(c.Fun)
+				}
+			}
+		}
+	}
+	fmt.Fprintf(&e.out, "def mutatingFirstGuard : String := %s\n", leanStr(firstGuard))
+	fmt.Fprintf(&e.out, "def mutatingDispatch : List (String × String) := [%s]\n", strings.Join(dispatch, ", "))
+	fmt.Fprintf(&e.out, "def mutatingNoPatchUnlessMutated : Bool := %v\n", noPatchGuard)
+	fmt.Fprintf(&e.out, "def mutatingPatchFrom : String := %s\n", leanStr(patchFrom))
+
+	// handleCreate: every step's flag is ORed into the result; handleUpdate runs no step
+	ors := 0
+	if fd := e.funcDecl(md, "PodMutatingHandler", "handleCreate"); fd != nil && fd.Body != nil {
+		for _, st := range fd.Body.List {
+			if as, ok := st.(*ast.AssignStmt); ok && len(as.Lhs) == 1 && len(as.Rhs) == 1 {
+				if be, ok := as.Rhs[0].(*ast.BinaryExpr); ok && be.Op == token.LOR {
+					l, lok := as.Lhs[0].(*ast.Ident)
+					x, xok := be.X.(*ast.Ident)
+					y, yok := be.Y.(*ast.Ident)
+					if lok && xok && yok && (l.Name == x.Name) != (l.Name == y.Name) {
+						ors++
+					}
+				}
+			}
+		}
+	}
+	fmt.Fprintf(&e.out, "def handleCreateFlagOrs : Nat := %d\n", ors)
+	var upd []string
+	if fd := e.funcDecl(md, "PodMutatingHandler", "handleUpdate"); fd == nil || fd.Body == nil {
+		e.fail("handleUpdate not found")
+	} else {
+		upd = c13RecvCalls(fd.Body, c13RecvName(fd), 3)
+	}
+	fmt.Fprintf(&e.out, "def handleUpdateSteps : List String := %s\n", c13StrList(upd))
+
+	// clusterColocationProfileMutatingPod: CREATE only; the last return ORs the flag of mutatePodResourceSpec into the
+	// flag set by applied profiles
+	createOnly, orsResourceFlag := false, false
+	if fd := e.funcDecl(md, "PodMutatingHandler", "clusterColocationProfileMutatingPod"); fd == nil || fd.Body == nil || len(fd.Body.List) < 3 {
+		e.fail("clusterColocationProfileMutatingPod not found")
+	} else {
+		if ifs, ok := fd.Body.List[0].(*ast.IfStmt); ok {
+			if be, ok := ifs.Cond.(*ast.BinaryExpr); ok && be.Op == token.NEQ && strings.Join(c13Mentions(be), ",") == "Create,Operation" && len(ifs.Body.List) == 1 {
+				if r, ok := ifs.Body.List[0].(*ast.ReturnStmt); ok && len(r.Results) == 2 {
+					if id, ok := r.Results[0].(*ast.Ident); ok && id.Name == "false" {
+						createOnly = true
+					}
+				}
+			}
+		}
+		n := len(fd.Body.List)
+		last, lok := fd.Body.List[n-1].(*ast.ReturnStmt)
+		prev, pok := fd.Body.List[n-2].(*ast.AssignStmt)
+		if lok && pok && len(last.Results) == 2 && len(prev.Lhs) == 2 && len(prev.Rhs) == 1 {
+			calls := c13RecvCalls(prev.Rhs[0], c13RecvName(fd), 1)
+			flag, fok := prev.Lhs[0].(*ast.Ident)
+			if be, ok := last.Results[0].(*ast.BinaryExpr); ok && fok && be.Op == token.LOR && len(calls) == 1 && calls[0] == "mutatePodResourceSpec" {
+				x, xok := be.X.(*ast.Ident)
+				y, yok := be.Y.(*ast.Ident)
+				if xok && yok && (x.Name == flag.Name) != (y.Name == flag.Name) {
+					other := x.Name
+					if x.Name == flag.Name {
+						other = y.Name
+					}
+					// `other` must be the flag the profile loop sets to true
+					setTrue := false
+					ast.Inspect(fd.Body, func(nn ast.Node) bool {
+						if as, ok := nn.(*ast.AssignStmt); ok && len(as.Lhs) == 1 && len(as.Rhs) == 1 {
+							l, lok := as.Lhs[0].(*ast.Ident)
+							r, rok := as.Rhs[0].(*ast.Ident)
+							if lok && rok && l.Name == other && r.Name == "true" {
+								setTrue = true
+							}
+						}
+						return true
+					})
+					orsResourceFlag = setTrue
+				}
+			}
+		}
+	}
+	fmt.Fprintf(&e.out, "def colocationCreateOnly : Bool := %v\n", createOnly)
+	fmt.Fprintf(&e.out, "def colocationOrsResourceFlag : Bool := %v\n", orsResourceFlag)
+
+	// validatingPodFn: the returns in front of the first validator, and the validators in order
+	var admits [][]string
+	rejects := 0
+	var steps []string
+	if fd := e.funcDecl(vd, "PodValidatingHandler", "validatingPodFn"); fd == nil || fd.Body == nil {
+		e.fail("validatingPodFn not found")
+	} else {
+		recv := c13RecvName(fd)
+		steps = c13RecvCalls(fd.Body, recv, 3)
+		var before []ast.Stmt
+		for _, st := range fd.Body.List {
+			if len(c13RecvCalls(st, recv, 3)) > 0 {
+				break
+			}
+			before = append(before, st)
+		}
+		var rets []c13Ret
+		c13Returns(before, nil, &rets)
+		for _, r := range rets {
+			if r.admit {
+				admits = append(admits, r.mentions)
+			}
+			if r.reject {
+				rejects++
+			}
+		}
+	}
+	var ad []string
+	for _, a := range admits {
+		ad = append(ad, c13StrList(a))
+	}
+	fmt.Fprintf(&e.out, "def validatingEarlyAdmits : List (List String) := [%s]\n", strings.Join(ad, ", "))
+	fmt.Fprintf(&e.out, "def validatingEarlyRejects : Nat := %d\n", rejects)
+	fmt.Fprintf(&e.out, "def validatingSteps : List String := %s\n", c13StrList(steps))
+
+	// clusterColocationProfileValidatingPod: what runs on UPDATE only (plain / behind a feature gate), what runs always
+	var updPlain, updGated, always []string
+	if fd := e.funcDecl(vd, "PodValidatingHandler", "clusterColocationProfileValidatingPod"); fd == nil || fd.Body == nil {
+		e.fail("clusterColocationProfileValidatingPod not found")
+	} else {
+		calls := func(n ast.Node) []string {
+			var out []string
+			ast.Inspect(n, func(x ast.Node) bool {
+				if c, ok := x.(*ast.CallExpr); ok {
+					if id, ok := c.Fun.(*ast.Ident); ok && id.Name != "append" {
+						out = append(out, id.Name)
+					}
+				}
+				return true
+			})
+			return out
+		}
+		for _, st := range fd.Body.List {
+			if sw, ok := st.(*ast.SwitchStmt); ok {
+				for _, cc := range sw.Body.List {
+					cl := cc.(*ast.CaseClause)
+					if len(cl.List) != 1 || strings.Join(c13Mentions(cl.List[0]), ",") != "Update" {
+						if len(cl.Body) > 0 {
+							e.fail("clusterColocationProfileValidatingPod: a non-UPDATE case has a body")
+						}
+						continue
+					}
+					for _, b := range cl.Body {
+						if ifs, ok := b.(*ast.IfStmt); ok {
+							pol := ""
+							if un, ok := ifs.Cond.(*ast.UnaryExpr); ok && un.Op == token.NOT {
+								pol = "!"
+							}
+							for _, f := range calls(ifs.Body) {
+								updGated = append(updGated, pol+strings.Join(c13Mentions(ifs.Cond), ",")+":"+f)
+							}
+						} else {
+							updPlain = append(updPlain, calls(b)...)
+						}
+					}
+				}
+			} else if as, ok := st.(*ast.AssignStmt); ok {
+				always = append(always, calls(as)...)
+			}
+		}
+	}
+	fmt.Fprintf(&e.out, "def updateChecks : List String := %s\n", c13StrList(updPlain))
+	fmt.Fprintf(&e.out, "def updateGatedChecks : List String := %s\n", c13StrList(updGated))
+	fmt.Fprintf(&e.out, "def alwaysChecks : List String := %s\n", c13StrList(always))
 }
